@@ -71,6 +71,9 @@ pub fn run(rec: &mut Recorder, w: &mut World, tier: &str, seed: u64) {
                 0 if rng.chance(1, 6) => { let r = gen_rule(&mut rng, &k, with_eft); rec.count("step:batch-with-repeated-rule"); (MOp::AddM("p".into(), pk.into(), vec![r.clone(), r]).line(), "add-rule") }
                 0 => { let r = gen_rule(&mut rng, &k, with_eft); (MOp::Add("p".into(), pk.into(), r).line(), "add-rule") }
                 1 => { if cur_rules.is_empty() { continue; } let r = cur_rules[rng.below(cur_rules.len())].clone(); (MOp::Rm("p".into(), pk.into(), r).line(), "remove-rule") }
+                // a batch of links in which a rule too short to be linked follows a good one: the call fails, whatever it did stays
+                // an addition
+                2 if rng.chance(1, 6) => { let gi = rng.below(k.g.len()); let r = rng.pick(&k.links[gi]).clone(); let short = vec![r[0].clone()]; rec.count("step:link-batch-with-unlinkable-rule"); (MOp::AddM("g".into(), k.g[gi].0.clone(), vec![r, short]).line(), "add-link") }
                 2 => { let gi = rng.below(k.g.len()); let r = rng.pick(&k.links[gi]).clone(); (MOp::Add("g".into(), k.g[gi].0.clone(), r).line(), "add-link") }
                 _ => { let gi = rng.below(k.g.len()); let r = rng.pick(&k.links[gi]).clone(); (MOp::Rm("g".into(), k.g[gi].0.clone(), r).line(), "remove-link") }
             };
@@ -125,6 +128,7 @@ pub fn run(rec: &mut Recorder, w: &mut World, tier: &str, seed: u64) {
         let mut descr: Vec<String> = vec![];
         // names that are nodes of the role graph so far (a node stays once a link has mentioned it)
         let mut nodes: std::collections::BTreeSet<String> = Default::default();
+        let mut cur_links: Vec<Vec<String>> = vec![];
         let mut links: Vec<Vec<String>> = vec![];
         let mut rules: Vec<Vec<String>> = vec![];
         // half of the histories are guided: a pattern name linked to a role that holds a rule, a concrete name the
@@ -137,6 +141,17 @@ pub fn run(rec: &mut Recorder, w: &mut World, tier: &str, seed: u64) {
             script = vec![(g("b*", "alice"), "add-link"), (g("*", "guest"), "add-link"), (MOp::Rm("g".into(), "g".into(), sv(&["*", "guest"])).line(), "remove-link"),
                 (g("reader", "guest"), "add-link"), (g("b*", "*"), "add-link"), (MOp::Add("p".into(), "p".into(), sv(&["guest", "data1", "read"])).line(), "add-rule"), (g("guest", "bob"), "add-link")];
             script.reverse();
+        } else if pi % 5 == 1 {
+            // two nested patterns that both match one concrete name (the more specific first, each leading to a role of its own,
+            // no link between patterns), then the first link that mentions the name: it must keep what both patterns gave it
+            let g = |a: &str, c: &str| MOp::Add("g".into(), "g".into(), sv(&[a, c])).line();
+            let (spec, gen, name) = *rng.pick(&[("b*", "*", "bob"), ("gu*", "*", "guest"), ("bo*", "b*", "bob")]);
+            let (r1, r2) = *rng.pick(&[("reader", "alice"), ("alice", "reader")]);
+            script = vec![(g(spec, r1), "add-link"), (g(gen, r2), "add-link"),
+                (MOp::Add("p".into(), "p".into(), sv(&[r1, "data1", "read"])).line(), "add-rule"), (MOp::Add("p".into(), "p".into(), sv(&[r2, "data2", "read"])).line(), "add-rule"),
+                (g(name, "guest2"), "add-link")];
+            script.reverse();
+            rec.count("pattern-roles:nested-patterns-history");
         } else if rng.chance(1, 2) {
             let (pat, name) = *rng.pick(&[("*", "guest"), ("*", "bob"), ("b*", "bob"), ("gu*", "guest"), ("*", "reader")]);
             let role = *rng.pick(&["reader", "guest", "alice"]);
@@ -167,6 +182,9 @@ pub fn run(rec: &mut Recorder, w: &mut World, tier: &str, seed: u64) {
             let mut shadowing = false;
             if kind.ends_with("link") {
                 let f: Vec<&str> = line.split('\t').collect();
+                // the links in force, taken from the calls themselves (scripts included)
+                let l = dec_list(f[3]);
+                if kind == "add-link" { if !cur_links.contains(&l) { cur_links.push(l); } } else { cur_links.retain(|x| *x != l); }
                 for n in dec_list(f[3]) {
                     let is_new = !nodes.contains(&n);
                     if is_new && !n.contains('*') && nodes.iter().any(|p| p.contains('*') && casbin::function_map::key_match(&n, p)) { shadowing = true; }
@@ -183,7 +201,9 @@ pub fn run(rec: &mut Recorder, w: &mut World, tier: &str, seed: u64) {
             if let Some((i, what)) = viol {
                 let store_is_empty = rec.exec_impl_only(w, "e.get\tp\tp") == "-";
                 let sig = if (store_was_empty && kind == "add-rule") || (store_is_empty && kind == "remove-rule") { "empty-store-grant" }
-                          else if shadowing { "pattern-roles-new-node-shadows-pattern" } else { "not-monotone-pattern-roles" };
+                          // the recorded finding K2 needs a pattern that is itself linked to (or from) another pattern: only then does
+                          // the new node's own neighbourhood fall short of what the pattern walk reached before
+                          else if shadowing && cur_links.iter().any(|l| l.len() >= 2 && l[0].contains('*') && l[1].contains('*')) { "pattern-roles-new-node-shadows-pattern" } else { "not-monotone-pattern-roles" };
                 rec.fail(sig, format!("[rbac allow-override, role matching fn keyMatch] {}: request {:?} went {} -> {} after {}", what, reqs[i], &before[i..i + 1], &after[i..i + 1], descr.join(" ; ")));
             }
             if after.contains('t') { rec.count("pattern-roles:state-with-grants"); }
